@@ -176,6 +176,9 @@ func (c *Ctx) judgeFuncOutcomes(outs []*FOutcome, race bool) {
 		switch oc.Stage {
 		case "ok":
 			res := oc.Res
+			if strings.HasPrefix(res.Skipped, "watchdog") {
+				c.Run.Inconclusive(fmt.Sprintf("item %s (%s): %s", it.ID, it.Shape, res.Skipped))
+			}
 			c.Run.Eval(res.Evals)
 			c.Run.Count("items", 1)
 			for cl := range res.Classes {
